@@ -8,6 +8,7 @@ import (
 	"go/constant"
 	"go/token"
 	"go/types"
+	"os"
 	"sort"
 	"strings"
 
@@ -62,11 +63,50 @@ func (w *World) writerSites(r *Report, rule string) []writerSite {
 			if call.Ellipsis.IsValid() {
 				ws.Spread = true
 				id, ok := call.Args[1].(*ast.Ident)
+				shapeFn := fi
+				if !ok {
+					// the argument list is built by a function of its own (`FormatCommand("X", req.recordArgs()...)`) that
+					// returns the local list it has put together
+					if bc, isCall := call.Args[1].(*ast.CallExpr); isCall {
+						if bo := typeutil.StaticCallee(fi.Pkg.TypesInfo, bc); bo != nil {
+							if bd := w.Decl(bo); bd != nil && bd.Decl.Body != nil {
+								var rets []*ast.Ident
+								plain := true
+								ast.Inspect(bd.Decl.Body, func(m ast.Node) bool {
+									if _, isLit := m.(*ast.FuncLit); isLit {
+										return false
+									}
+									if rs, isRet := m.(*ast.ReturnStmt); isRet {
+										if len(rs.Results) == 1 {
+											if rid, isId := rs.Results[0].(*ast.Ident); isId {
+												rets = append(rets, rid)
+												return true
+											}
+										}
+										plain = false
+									}
+									return true
+								})
+								if plain && len(rets) > 0 {
+									same := true
+									for _, rid := range rets {
+										if bd.Pkg.TypesInfo.Uses[rid] != bd.Pkg.TypesInfo.Uses[rets[0]] {
+											same = false
+										}
+									}
+									if same {
+										id, ok, shapeFn = rets[0], true, bd
+									}
+								}
+							}
+						}
+					}
+				}
 				if !ok {
 					r.Und(rule, "writer:"+ws.Name+"@"+qname(fi.Obj), w.Pos(call.Pos()), "spread argument is not a local variable")
 					return true
 				}
-				lo, hi, keys, ok2 := w.spreadShape(fi, id)
+				lo, hi, keys, ok2 := w.spreadShape(shapeFn, id)
 				if !ok2 {
 					r.Und(rule, "writer:"+ws.Name+"@"+qname(fi.Obj), w.Pos(call.Pos()), "cannot determine the shape of the spread argument list")
 					return true
@@ -630,45 +670,48 @@ func ruleCDC4(w *World, r *Report, only map[string]bool) {
 	}
 	// reader: does ParseCommand compare a parsed length with -1 on a non-error path?
 	accepts := false
-	pfn := w.SSAFunc(pc.Obj)
-	for _, b := range pfn.Blocks {
-		for _, in := range b.Instrs {
-			bo, ok := in.(*ssa.BinOp)
-			if !ok || (bo.Op != token.EQL && bo.Op != token.NEQ) {
-				continue
-			}
-			var other ssa.Value
-			if v, ok := constInt(bo.Y); ok && v == -1 {
-				other = bo.X
-			} else if v, ok := constInt(bo.X); ok && v == -1 {
-				other = bo.Y
-			}
-			if other == nil {
-				continue
-			}
-			// the equal-edge must be able to reach the success return without an error return first
-			for _, ref := range *bo.Referrers() {
-				iff, ok := ref.(*ssa.If)
-				if !ok {
+	ptop := w.SSAFunc(pc.Obj)
+	// (reading one bulk string may be a function of its own, called by ParseCommand alone)
+	for _, pfn := range append([]*ssa.Function{ptop}, w.extractedHelpers(ptop)...) {
+		for _, b := range pfn.Blocks {
+			for _, in := range b.Instrs {
+				bo, ok := in.(*ssa.BinOp)
+				if !ok || (bo.Op != token.EQL && bo.Op != token.NEQ) {
 					continue
 				}
-				eqSucc := 0
-				if bo.Op == token.NEQ {
-					eqSucc = 1
+				var other ssa.Value
+				if v, ok := constInt(bo.Y); ok && v == -1 {
+					other = bo.X
+				} else if v, ok := constInt(bo.X); ok && v == -1 {
+					other = bo.Y
 				}
-				// from eq successor: reach a return whose error result is nil const
-				q := pathQuery{fn: pfn, target: func(in ssa.Instruction) bool {
-					rt, ok := in.(*ssa.Return)
-					return ok && len(rt.Results) == 2 && isNilConst(retVal(rt, 1))
-				}, avoid: func(in ssa.Instruction) bool {
-					rt, ok := in.(*ssa.Return)
-					return ok && len(rt.Results) == 2 && !isNilConst(retVal(rt, 1))
-				}}
-				// every path from the equal edge must not be forced into an error: existence suffices
-				start := ipos{iff.Block().Succs[eqSucc], -1}
-				// the other successor must not be the same block
-				if found, _ := q.find(start); found {
-					accepts = true
+				if other == nil {
+					continue
+				}
+				// the equal-edge must be able to reach the success return without an error return first
+				for _, ref := range *bo.Referrers() {
+					iff, ok := ref.(*ssa.If)
+					if !ok {
+						continue
+					}
+					eqSucc := 0
+					if bo.Op == token.NEQ {
+						eqSucc = 1
+					}
+					// from eq successor: reach a return whose error result is nil const
+					q := pathQuery{fn: pfn, target: func(in ssa.Instruction) bool {
+						rt, ok := in.(*ssa.Return)
+						return ok && len(rt.Results) == 2 && isNilConst(retVal(rt, 1))
+					}, avoid: func(in ssa.Instruction) bool {
+						rt, ok := in.(*ssa.Return)
+						return ok && len(rt.Results) == 2 && !isNilConst(retVal(rt, 1))
+					}}
+					// every path from the equal edge must not be forced into an error: existence suffices
+					start := ipos{iff.Block().Succs[eqSucc], -1}
+					// the other successor must not be the same block
+					if found, _ := q.find(start); found {
+						accepts = true
+					}
 				}
 			}
 		}
@@ -874,6 +917,8 @@ func stripConv(v ssa.Value) ssa.Value {
 	}
 }
 
+var boundedDepth int
+
 // boundedSize decides whether size value v is bounded at block `at`.
 func boundedSize(v ssa.Value, at *ssa.BasicBlock) (Verdict, string) {
 	root := stripConv(v)
@@ -882,6 +927,46 @@ func boundedSize(v ssa.Value, at *ssa.BasicBlock) (Verdict, string) {
 	}
 	if lenDerived(root, 0) {
 		return OK, "sized by the length of data already in memory"
+	}
+	// the size is the answer of a function of the module (the header parser as a function of its own): bounded if it is
+	// bounded at every return of that function that reports success
+	{
+		var call *ssa.Call
+		idx := 0
+		switch x := root.(type) {
+		case *ssa.Extract:
+			call, _ = x.Tuple.(*ssa.Call)
+			idx = x.Index
+		case *ssa.Call:
+			call = x
+		}
+		if call != nil {
+			if h := call.Call.StaticCallee(); h != nil && inModule(h) && len(h.Blocks) > 0 && h != at.Parent() && boundedDepth < 2 {
+				boundedDepth++
+				all, n := true, 0
+				nres := h.Signature.Results().Len()
+				for _, hb := range h.Blocks {
+					rt, isRet := hb.Instrs[len(hb.Instrs)-1].(*ssa.Return)
+					if !isRet || len(rt.Results) != nres || idx >= nres {
+						continue
+					}
+					if isErrorType(rt.Results[nres-1].Type()) && definitelyError(retVal(rt, nres-1)) {
+						continue
+					}
+					if isErrorType(rt.Results[nres-1].Type()) && !isNilConst(retVal(rt, nres-1)) {
+						continue // hands a callee's error on: the caller returns on it (checked where the size is used)
+					}
+					n++
+					if vd, _ := boundedSize(retVal(rt, idx), hb); vd != OK {
+						all = false
+					}
+				}
+				boundedDepth--
+				if all && n > 0 {
+					return OK, "the size is what " + shortFn(h) + " returns, and that is bounded at each of its successful returns"
+				}
+			}
+		}
 	}
 	// a bounded size plus or minus a small constant (room for a terminator, a header) is bounded
 	if bo, ok := root.(*ssa.BinOp); ok && (bo.Op == token.ADD || bo.Op == token.SUB) {
@@ -1460,6 +1545,54 @@ func ruleGRDcrc(w *World, r *Report) {
 				found, wit := pathQuery{fn: rfn, target: notFalse, blocked: blockedS}.find(entryPos(rfn))
 				r.Cond(!found, "GRD-crc", "resyncAOF:accept-after-"+pair.name, w.Pos(rs.Decl.Pos()), "candidate accepted only after "+pair.name+" succeeded (inside "+shortFn(h)+")", "resyncAOF can accept a candidate offset without a successful "+pair.name, w.witness(wit)...)
 			}
+			if !okHelper {
+				// the candidate test is the visitor handed to a scanner (`forEachMagicByte(file, start, func(pos) bool {…})`):
+				// the verdict travels in captured variables. What resyncAOF returns as "found" is such a variable, and the
+				// visitor stores a value other than false into it only after the call has succeeded.
+				for _, cf := range closuresOf(rfn) {
+					inner := findInstrs(cf, callsTo(pair.obj))
+					if len(inner) == 0 {
+						continue
+					}
+					// the cells resyncAOF's verdict is read from
+					verdictCells := map[ssa.Value]bool{}
+					for _, b := range rfn.Blocks {
+						if rt, ok := b.Instrs[len(b.Instrs)-1].(*ssa.Return); ok && len(rt.Results) > 0 {
+							for _, rv := range []ssa.Value{rt.Results[len(rt.Results)-1], retVal(rt, len(rt.Results)-1)} {
+								if ld, ok := rv.(*ssa.UnOp); ok && ld.Op == token.MUL {
+									verdictCells[cellRoot(ld.X)] = true
+								}
+							}
+						}
+					}
+					blockedC := map[edgeKey]bool{}
+					for _, c := range inner {
+						_, succ := succFailEdges(cf, c.(*ssa.Call))
+						for k := range succ {
+							blockedC[k] = true
+						}
+					}
+					accepts := func(in ssa.Instruction) bool {
+						st, ok := in.(*ssa.Store)
+						if !ok || !verdictCells[cellRoot(st.Addr)] {
+							return false
+						}
+						c, isC := st.Val.(*ssa.Const)
+						return !(isC && c.Value != nil && c.Value.Kind() == constant.Bool && !constant.BoolVal(c.Value))
+					}
+					if os.Getenv("KVLINT_DEBUG") != "" {
+						fmt.Fprintln(os.Stderr, "DEBUG GRD-crc visitor", cf.Name(), len(verdictCells), len(findInstrs(cf, accepts)), len(blockedC))
+					}
+					if len(verdictCells) == 0 || len(findInstrs(cf, accepts)) == 0 || len(blockedC) == 0 {
+						continue
+					}
+					// … and resyncAOF itself never says "found" on its own
+					own := len(findInstrs(rfn, accepts)) > 0
+					okHelper = true
+					found, wit := pathQuery{fn: cf, target: accepts, blocked: blockedC}.find(entryPos(cf))
+					r.Cond(!found && !own, "GRD-crc", "resyncAOF:accept-after-"+pair.name, w.Pos(rs.Decl.Pos()), "candidate accepted only after "+pair.name+" succeeded (inside the visitor of the scan)", "resyncAOF can accept a candidate offset without a successful "+pair.name, w.witness(wit)...)
+				}
+			}
 			if okHelper {
 				continue
 			}
@@ -1654,6 +1787,18 @@ func ruleGRDscan(w *World, r *Report) {
 			r.Cond(!bad, "GRD-scan", fmt.Sprintf("%s:frame-read#%d:failure-leads-to-resync", shortName(caller.Obj), i+1), w.Pos(rd.Pos()), "after a failed frame the next frame is read only behind resyncAOF", shortName(caller.Obj)+" can go on to read the next frame after a failed one without the forward scan (for instance by stepping over the failed frame by its own reported size): a damaged length field that still points inside the file makes replay jump over intact frames, whose commands are silently dropped", w.witness(wit)...)
 		}
 	}
+	// the scan loop may be a function of its own that hands every candidate to a visitor (`forEachMagicByte(file, start,
+	// visit)`): the window clauses below are about the function that reads the windows
+	top := fn
+	isWindowRead := func(in ssa.Instruction) bool { return isCallTo(in, "os", "File.Read") }
+	if len(findInstrs(fn, isWindowRead)) == 0 {
+		for _, h := range w.extractedHelpers(fn) {
+			if len(findInstrs(h, isWindowRead)) > 0 {
+				fn = h
+				break
+			}
+		}
+	}
 	// the window read happens at the scan's own position: whatever else in the loop uses the same file (probing a
 	// candidate with ReadFrame, seeking to it) moves the shared offset, so each window read must be preceded, in its
 	// own iteration, by a Seek
@@ -1784,9 +1929,37 @@ func ruleGRDscan(w *World, r *Report) {
 			if y == ssa.Value(phi) {
 				candOK = true
 			}
-			if p, ok := bo.X.(*ssa.Parameter); ok && p == fn.Params[len(fn.Params)-1] {
+			if p, ok := bo.X.(*ssa.Parameter); ok && p == fn.Params[len(fn.Params)-1] && fn == top {
 				if c, ok := constInt(bo.Y); ok && c == 1 {
 					firstOK = true
+				}
+			}
+		}
+	}
+	if fn != top {
+		// resyncAOF hands lastValid+1 to the scanner, whose first window base is that parameter
+		for _, cs := range callSitesOf(top, fn) {
+			for i, a := range cs.Call.Args {
+				bo, ok := a.(*ssa.BinOp)
+				if !ok || bo.Op != token.ADD || i >= len(fn.Params) {
+					continue
+				}
+				p, isP := bo.X.(*ssa.Parameter)
+				c, isC := constInt(bo.Y)
+				if !isP || p != top.Params[len(top.Params)-1] || !isC || c != 1 {
+					continue
+				}
+				// … and the scanner's base starts from it: the parameter is an edge of the phi the base advances through
+				for _, b := range fn.Blocks {
+					for _, in := range b.Instrs {
+						if ph, ok := in.(*ssa.Phi); ok {
+							for _, e := range ph.Edges {
+								if e == ssa.Value(fn.Params[i]) {
+									firstOK = true
+								}
+							}
+						}
+					}
 				}
 			}
 		}
@@ -1980,18 +2153,20 @@ func ruleCDC8(w *World, r *Report) {
 	// apply phase: deletions reach the live index
 	del1 := w.FuncObj("pkg/core/hnsw", "Index.Delete")
 	applies := false
-	ast.Inspect(fi.Decl.Body, func(n ast.Node) bool {
-		if n == ast.Node(rt.Switch) {
-			return false
-		}
-		if c, ok := n.(*ast.CallExpr); ok {
-			f := typeutil.Callee(info, c)
-			if fn, ok := f.(*types.Func); ok && fn.Name() == "Delete" && (fn == del1 || relPkg(fn) == "pkg/core") {
-				applies = true
+	for _, d := range append([]*FuncInfo{fi}, w.helperDecls(fi)...) { // (the apply phase may be a function of its own)
+		ast.Inspect(d.Decl.Body, func(n ast.Node) bool {
+			if n == ast.Node(rt.Switch) {
+				return false
 			}
-		}
-		return true
-	})
+			if c, ok := n.(*ast.CallExpr); ok {
+				f := typeutil.Callee(d.Pkg.TypesInfo, c)
+				if fn, ok := f.(*types.Func); ok && fn.Name() == "Delete" && (fn == del1 || relPkg(fn) == "pkg/core") {
+					applies = true
+				}
+			}
+			return true
+		})
+	}
 	r.Cond(applies, "CDC-8", "apply:deletes-from-restored-index", w.Pos(fi.Decl.Pos()), "replayed deletions are applied to the live index", "replayAOF never deletes a vector from a restored index: a vector deleted after a snapshot is back after restart")
 	// the tombstone for a restored index must not depend on whether this log also holds a pending entry for the id
 	// (a VMETA journaled after the snapshot creates a metadata-only pending entry for a node that lives in the snapshot)
